@@ -901,7 +901,7 @@ def extract_fn(gen, f, probe=False):
       n_aw += 1
       txt = "".join("assert(%s); " % (c if isinstance(c, str) else c[1]) for c in f.await_inv)
       t = gen.tag({"kind": "hint", "fn": qual, "name": "%s.%s" % (qual, f.await_inv[0][0]), "text": " ".join(txt.split())})
-      add_op(start, start, "{ proof { %s} " % txt, t)
+      add_op(start, start, "{\nproof { %s}\n" % txt, t)  # own line: a failing await-point assertion maps to its named obligation
       add_op(am.end(), am.end(), " }", body.o[k])
     if n_aw:
       gen.obligations.append({"name": "%s.%s" % (qual, f.await_inv[0][0]), "fn": qual, "kind": "hint", "text": "at each of the %d await points: %s" % (n_aw, "; ".join(c[1] for c in f.await_inv))})
